@@ -1,6 +1,7 @@
 """front-end correspondence: tokens, syntax trees and all diagnostics of lexer and parser,
 implementation (godump over the exported API) against the model"""
 import core
+import kernel
 
 
 def diff_front(env, texts, prefix='t', keep=40):
@@ -8,7 +9,7 @@ def diff_front(env, texts, prefix='t', keep=40):
     cps = [t if isinstance(t, list) else core.cps_of(t) for t in texts]
     cases = [{'id': '%s%d' % (prefix, i), 'cps': c} for i, c in enumerate(cps)]
     gd = env.run_godump('both', cases)
-    md = env.run_model(['parse\t%s%d\t%s' % (prefix, i, core.field(c)) for i, c in enumerate(cps)], need_oracle=False)
+    md = env.run_model(['parse\t%s%d\t%s' % (prefix, i, core.field(c)) for i, c in enumerate(cps)], need_oracle=False, case_timeout=40)
     mt = env.run_model(['tokens\t%s%d\t%s' % (prefix, i, core.field(c)) for i, c in enumerate(cps)], need_oracle=False)
     mism = []
     acc = 0
@@ -31,6 +32,8 @@ def diff_front(env, texts, prefix='t', keep=40):
         gast = g.get('ast', '') if not g['parse_err'] else '-'
         if m[2] == 'parsefuel':
             mism.append({'case': case, 'reason': 'model parser ran out of fuel'}); continue
+        if i % 7 == 0:
+            kernel.offer_front(src, m)
         if gitems != mitems or gast != m[0]:
             if len(mism) < keep:
                 mism.append({'case': case, 'reason': 'parse differs: implementation %s %s | model %s %s' % (gitems[:4], gast[:300], mitems[:4], m[0][:300])})
